@@ -154,7 +154,7 @@ inductive Out
   | val (b : Bytes)
   | keys (ks : List Bytes)
   | err (e : Err)
-deriving Repr
+deriving DecidableEq, Repr
 
 def Handle.bof (h : Handle) : Nat := bofOf h.h2 h.b0
 
@@ -173,18 +173,19 @@ def readHeader (file : Bytes) : Option (Bytes × Bytes × Bytes) :=
 
 def lastKey (t : Toc) : Option Bytes := (t.getLast?).map (·.1)
 
+/-- `self._toc[self._last].end if self._last is not None else self._bof` -/
+def Handle.lastEnd (h : Handle) : Option Nat :=
+  match h.last with
+  | some k => (tocFind h.toc k).map Rec.end_
+  | none => some h.bof
+
 /-- `map_blocks` (repaired form: size-bounded, torn tail cut when writable). -/
 def mapBlocks (h : Handle) (file : Bytes) : Handle × Bytes :=
-  let size := file.length
-  let lastEnd : Option Nat :=
-    match h.last with
-    | some k => (tocFind h.toc k).map Rec.end_
-    | none => some h.bof
-  if h.eof = some size ∧ h.eof = lastEnd then (h, file)
+  if h.eof = some file.length ∧ h.eof = h.lastEnd then (h, file)
   else
-    let (recs, pos) := scanFile file h.bof
-    let file' := if pos < size ∧ h.mode ≠ Mode.r then file.take pos else file
-    ({ h with toc := tocMerge h.toc recs, last := lastKey recs, eof := some pos }, file')
+    let sc := scanFile file h.bof
+    let file' := if sc.2 < file.length ∧ h.mode ≠ Mode.r then file.take sc.2 else file
+    ({ h with toc := tocMerge h.toc sc.1, last := lastKey sc.1, eof := some sc.2 }, file')
 
 /-- `open()` on a closed handle object whose mode has been set. -/
 def openHandle (h : Handle) (file : Option Bytes) : Except Err (Handle × Option Bytes) :=
